@@ -16,7 +16,7 @@ from common import frac_str, parse_frac
 DOMAINS = [(F(0), F(1)), (F(-1), F(1)), (F(0), F(2)), (F(1, 2), F(1)), (F(-3), F(6)), (F(1, 2), F(2)), (F(2), F(5, 2)), (F(-2), F(-1))]
 RATIOS = [F(1, 3), F(1, 4), F(2, 5), F(3, 5), F(2, 3), F(3, 4), F(3, 7), F(1, 2)]
 TOL = 1e-9          # float comparisons (DEV.md); dyadic inputs with power-of-two widths are compared exactly
-TOL_HIER = 1e-7     # hierarchical / moment-matching families: an n x n solve sits between input and output
+TOL_HIER = 1e-9     # hierarchical / moment-matching families: an n x n solve sits between input and output
 
 
 # ------------------------------------------------------------------------------------------------ generators
@@ -423,6 +423,9 @@ def run_family(ctx, case, grid=None, report=None):
     L = min(complete_level(l) for l in lv)
     weighted = bool(case.get("weighted"))
     tags = {"family": fam, "p": p, "boundary": bd, "modified": md, "dim": dim}
+    nnls_opt, split_opt = bool(case.get("do_nnls", 0)), bool(case.get("split_up", 1))     # GlobalHighOrderGrid options
+    if fam == "highorder" and (nnls_opt or not split_opt):
+        tags["do_nnls"], tags["split_up"] = nnls_opt, split_opt
     af, bf = [float(x) for x in a], [float(x) for x in b]
     ok = True
     rc = report if report is not None else case
@@ -440,7 +443,7 @@ def run_family(ctx, case, grid=None, report=None):
         if grid is not None:
             g = grid
         elif fam == "highorder":
-            g = G.GlobalHighOrderGrid(af, bf, boundary=bd, modified_basis=md)
+            g = G.GlobalHighOrderGrid(af, bf, boundary=bd, modified_basis=md, do_nnls=nnls_opt, split_up=split_opt)
         elif fam == "lagrange":
             g = G.GlobalLagrangeGrid(af, bf, boundary=bd, modified_basis=md, p=p)
         elif fam == "bspline":
@@ -458,14 +461,17 @@ def run_family(ctx, case, grid=None, report=None):
         if fam == "highorder" and dim == 1:
             # the degree the code itself claims for the weights it returns
             w0, d0 = g.get_1D_weights_and_order(list(ptsf[0]), af[0], bf[0], list(lv[0]))
-            w1, d1 = g.recursive_splitting3(list(ptsf[0]), af[0], bf[0], d0, list(lv[0])) if len(ptsf[0]) > 1 else (w0, d0)
+            if split_opt and len(ptsf[0]) > 1 and (len(ptsf[0]) > 3 or bd):       # the condition of compute_1D_quad_weights
+                w1, d1 = g.recursive_splitting3(list(ptsf[0]), af[0], bf[0], d0, list(lv[0]))
+            else:
+                w1, d1 = w0, d0
             w1 = list(w1) if bd else list(w1)[1:-1]
             if [float(x) for x in w1] != [float(x) for x in g.weights[0]]:
                 ok = False
                 viol("family-weights-observable", tags, {"recursive_splitting3": [float(x) for x in w1], "weights": [float(x) for x in g.weights[0]]})
             maxdeg = max(1, min(int(d1), 7))
-            ctx.count("highorder_claimed_degree_%d" % maxdeg)
-            if case.get("uniform") and bd and not md:
+            ctx.count("highorder%s%s_claimed_degree_%d" % ("_nnls" if nnls_opt else "", "" if split_opt else "_nosplit", maxdeg))
+            if case.get("uniform") and bd and not md and not nnls_opt:
                 # 'enough points' for the moment-matching rule (max_degree = 5): a uniform complete tree reaches
                 # degree 2 with 3 points and the full order 5 with >= 5 points
                 need = 2 if len(ptsf[0]) == 3 else 5
@@ -510,7 +516,7 @@ def run_family(ctx, case, grid=None, report=None):
         if grid is not None and not worst and dim == 1 and fam in ("highorder", "lagrange", "bspline"):
             # the re-used object against a fresh one on the same grid: weights and the integral of a non-polynomial table function
             if fam == "highorder":
-                g2 = G.GlobalHighOrderGrid(af, bf, boundary=bd, modified_basis=md)
+                g2 = G.GlobalHighOrderGrid(af, bf, boundary=bd, modified_basis=md, do_nnls=nnls_opt, split_up=split_opt)
             elif fam == "lagrange":
                 g2 = G.GlobalLagrangeGrid(af, bf, boundary=bd, modified_basis=md, p=p)
             else:
@@ -599,7 +605,7 @@ def gen_malformed(rng):
 FAMILY_CONFIGS = (
     [("highorder", 0, 1, 0)] * 4 + [("highorder", 0, 0, 1)]
     + [("lagrange", p, 1, 0) for p in (1, 2, 2, 3, 3, 5)] + [("lagrange", 2, 0, 1)]
-    + [("bspline", p, 1, 0) for p in (1, 3, 3, 5)] + [("bspline", p, 0, 1) for p in (1, 3, 3, 5)]
+    + [("bspline", p, 1, 0) for p in (1, 3, 3, 5, 7, 7, 9)] + [("bspline", p, 0, 1) for p in (1, 3, 3, 5)]
     + [("simpson", 0, 1, 0)]
 )
 
@@ -618,13 +624,17 @@ def gen_family_case(rng, thorough):
                 lv[j] = l
         pts = [dom[0] + (dom[1] - dom[0]) * F(i, n0 - 1) for i in range(n0)]
         return {"kind": "family", "family": fam, "p": 0, "boundary": 1, "modified": 0, "weighted": 0, "uniform": 1,
+                "do_nnls": int(rng.random() < 0.3), "split_up": int(rng.random() < 0.7),
                 "dims": [{"a": frac_str(dom[0]), "b": frac_str(dom[1]), "pts": [frac_str(x) for x in pts], "levels": lv}]}
     dim = 2 if (rng.random() < 0.12 and fam in ("lagrange", "highorder", "bspline") and not md) else 1
     dims = []
     for d in range(dim):
-        if rng.random() < 0.45:
+        high = fam == "bspline" and p >= 7 and not md
+        if rng.random() < (0.8 if high else 0.45):
             # complete down to some level, then graded
             L = rng.choice([1, 2, 2, 3, 3, 4] if dim == 1 else [1, 2, 2])
+            if high and dim == 1:
+                L = bspline_required_level(p)          # 3 for p = 7, 4 for p = 9: the order clause applies
             dom = rng.choice(DOMAINS)
             n0 = 2 ** L + 1
             pts = [dom[0] + (dom[1] - dom[0]) * F(i, n0 - 1) for i in range(n0)]
@@ -636,7 +646,7 @@ def gen_family_case(rng, thorough):
             if weighted:
                 # the same tree shape with weighted midpoints
                 pts, lv = weighted_full(rng, dom[0], dom[1], L)
-            extra = rng.randint(0, 8 if dim == 1 else 2)
+            extra = rng.randint(0, (4 if high else 8) if dim == 1 else 2)
             pl = list(zip(pts, lv))
             for _ in range(extra):
                 cells = list(range(len(pl) - 1))
@@ -653,7 +663,10 @@ def gen_family_case(rng, thorough):
             if fam == "bspline" and p >= 5:
                 n = min(n, 16)
             dims.append(case_dim(rng, n, weighted, rng.choice([0.0, 0.3, 0.7]), 9))
-    return {"kind": "family", "family": fam, "p": p, "boundary": bd, "modified": md, "weighted": int(weighted), "dims": dims}
+    case = {"kind": "family", "family": fam, "p": p, "boundary": bd, "modified": md, "weighted": int(weighted), "dims": dims}
+    if fam == "highorder":
+        case["do_nnls"], case["split_up"] = int(rng.random() < 0.4), int(rng.random() < 0.7)
+    return case
 
 
 def weighted_full(rng, a, b, L):
@@ -745,6 +758,7 @@ def gen_history_equal_size(rng, thorough):
         steps.append({"step": "equal-size-" + name,
                       "dims": [{"a": frac_str(dom[0]), "b": frac_str(dom[1]), "pts": [frac_str(x) for x in pts], "levels": lv}]})
     return {"kind": "history", "family": fam, "p": p, "boundary": 1, "modified": 0, "dim": 1, "equal_size": n,
+            "do_nnls": int(fam == "highorder" and rng.random() < 0.4), "split_up": int(fam != "highorder" or rng.random() < 0.7),
             "a": frac_str(dom[0]), "b": frac_str(dom[1]), "steps": steps}
 
 
@@ -781,6 +795,7 @@ def gen_history(rng, thorough):
         prev = dims
         steps.append({"step": kind, "dims": dims})
     return {"kind": "history", "family": fam, "p": p, "boundary": bd, "modified": md, "dim": dim,
+            "do_nnls": int(fam == "highorder" and rng.random() < 0.4), "split_up": int(fam != "highorder" or rng.random() < 0.7),
             "a": frac_str(dom[0]), "b": frac_str(dom[1]), "steps": steps}
 
 
@@ -795,7 +810,8 @@ def run_history(ctx, drv, case):
         if fam == "trapezoid":
             g = G.GlobalTrapezoidalGrid([a] * dim, [b] * dim, boundary=bd, modified_basis=md)
         elif fam == "highorder":
-            g = G.GlobalHighOrderGrid([a] * dim, [b] * dim, boundary=bd, modified_basis=md)
+            g = G.GlobalHighOrderGrid([a] * dim, [b] * dim, boundary=bd, modified_basis=md,
+                                      do_nnls=bool(case.get("do_nnls", 0)), split_up=bool(case.get("split_up", 1)))
         elif fam == "lagrange":
             g = G.GlobalLagrangeGrid([a] * dim, [b] * dim, boundary=bd, modified_basis=md, p=p)
         else:
@@ -815,7 +831,7 @@ def run_history(ctx, drv, case):
             good = run_trap2d(ctx, drv, sub, grid=g, report=dict(case, failed_step=k))
         else:
             sub = {"kind": "family", "family": fam, "p": p, "boundary": int(bd), "modified": int(md), "weighted": int(st["step"] != "dyadic-shape"),
-                   "dims": st["dims"]}
+                   "dims": st["dims"], "do_nnls": case.get("do_nnls", 0), "split_up": case.get("split_up", 1)}
             good = run_family(ctx, sub, grid=g, report=dict(case, failed_step=k))
         if not good:
             ok = False
@@ -872,7 +888,8 @@ def run(ctx):
                 "with the Lean model (coordinates, levels, weights, raw compute_weights vector, error kind, integrate of a random value table) "
                 "and checked against the property clauses computed independently in Fractions; 8% malformed inputs (unsorted, wrong level "
                 "length, < 3 points, duplicates, both flags, domain mismatch); 2-D tensor cases; high-order / Lagrange / B-spline families "
-                "(p in 1,2,3,5) are checked by the oracle only (constants, linear, degree p when the tree is complete to the required level); "
+                "(Lagrange p in 1,2,3,5; B-spline p in 1,3,5,7,9 with trees complete to level ceil(log2(p+1)); GlobalHighOrderGrid with do_nnls on/off "
+                "and split_up on/off) are checked by the oracle only (constants, linear, degree p when the tree is complete to the required level); "
                 "object histories: ONE grid object re-used for 3-6 set_grid calls (same level labels with different points via a shared split "
                 "order with other ratios, same points with other levels, other trees; also 2-D grids whose two dimensions share interval and "
                 "level labels), every step checked like a single case (model, fresh object, plIntegral, linear exactness) for all families; "
